@@ -204,6 +204,13 @@ def do_case(c):
             lib = ((lib or 'x') * (need // max(1, len(lib or 'x')) + 1))[:max(1, need)]
         out = st.demultiplex(recs, library=lib)
         res = {'stores': [], 'headers': [], 'library': lib}
+        if c.get('second'):          # the demultiplexed FASTQ demultiplexed a second time with another strategy
+            fqs = [tr if isinstance(tr, str) else str(tr) for tr in out]
+            recs2 = [FastqRecord(*fq.split('\n')[:4]) for fq in fqs]
+            res['first_headers'] = [r2.header for r2 in recs2]
+            st2 = x[{'idx': 'strategies', 'noidx': 'strategies_noidx', 'hd1': 'strategies_hd1'}[
+                c.get('ctx') or ('idx' if c.get('parser', True) else 'noidx')]][c['second']]
+            out = st2.demultiplex(recs2, library=lib)
         reads = []
         for tr in out:
             if isinstance(tr, str):          # the bulk strategy returns fastq text
